@@ -58,8 +58,20 @@ fn lookup(env: &Env, name: &str) -> Option<Val> {
     }
 }
 
-fn child(env: &Env) -> Env {
+fn new_frame(env: &Env) -> Env {
     Rc::new(Frame { vars: RefCell::new(vec![]), parent: Some(env.clone()) })
+}
+
+impl<'h> Drop for Interp<'h> {
+    /// Closures stored in a frame point back at it (reference cycles): every frame this
+    /// interpreter created is emptied explicitly so the memory is returned.
+    fn drop(&mut self) {
+        self.captured = None;
+        self.global.vars.borrow_mut().clear();
+        for f in self.frames.drain(..) {
+            f.vars.borrow_mut().clear();
+        }
+    }
 }
 
 #[derive(Debug, Clone, PartialEq)]
@@ -174,6 +186,7 @@ pub struct Interp<'h> {
     /// keep feeding records to the thunk after a scan break (to observe every record)
     pub continue_after_break: bool,
     global: Env,
+    frames: Vec<Env>,
 }
 
 pub const SPECIAL_FORMS: &[&str] = &[
@@ -222,11 +235,18 @@ impl<'h> Interp<'h> {
             captured: None,
             continue_after_break: false,
             global,
+            frames: vec![],
         }
     }
 
     pub fn global(&self) -> Env {
         self.global.clone()
+    }
+
+    fn child(&mut self, env: &Env) -> Env {
+        let f = new_frame(env);
+        self.frames.push(f.clone());
+        f
     }
 
     /// Evaluate every top-level form of a program text.
@@ -425,7 +445,7 @@ impl<'h> Interp<'h> {
                     Some(b) => b,
                     None => return Some(err("bad let bindings")),
                 };
-                let new = child(env);
+                let new = self.child(env);
                 let mut pending = vec![];
                 for b in binds {
                     let pair = match b.as_list() {
@@ -516,7 +536,7 @@ impl<'h> Interp<'h> {
         self.tick()?;
         match f {
             Val::Closure(c) => {
-                let env = child(&c.env);
+                let env = self.child(&c.env);
                 if c.rest.is_none() && args.len() != c.params.len() {
                     return err(format!(
                         "Wrong number of arguments to procedure {:?}: got {}",
